@@ -200,11 +200,20 @@ class Tensor:
     def __matmul__(self, other):
         return self._opset.MatMul(self, other)
 
+    def __rmatmul__(self, other):
+        return self._opset.MatMul(other, self)
+
     def __or__(self, other):
         return self._opset.Or(self, other)
 
+    def __ror__(self, other):
+        return self._opset.Or(other, self)
+
     def __pow__(self, other):
         return self._opset.Pow(self, other)
+
+    def __rpow__(self, other):
+        return self._opset.Pow(other, self)
 
     def __sub__(self, other):
         return self._opset.Sub(self, other)
@@ -214,6 +223,9 @@ class Tensor:
 
     def __truediv__(self, other):
         return self._opset.Div(self, other)
+
+    def __rtruediv__(self, other):
+        return self._opset.Div(other, self)
 
     def __lt__(self, other):
         return self._opset.Less(self, other)
